@@ -238,6 +238,12 @@ class C06(HistoryCampaign):
             # every process (seeded C06-5: set iteration over strings follows PYTHONHASHSEED)
             sc["fresh"] = rnd.random() < 0.5
         sc["hashseed"] = rnd.randint(1, 4000)
+        if sc["driver"] not in ("ForceBias", "AdaptiveForceBias") and sc.get("route") != "from_dict" and rnd.random() < 0.1:
+            # moves added without a name (whatever the driver calls them must not depend on the process)
+            plain = [e for e in sc["moves"] if e.get("via") != "constructor" and e["move"]["type"] != "ref"
+                     and not any(r.get("of") == e.get("name") for x in sc["moves"] for r in [x["move"]] if r.get("type") == "ref")]
+            for e in plain[:2]:
+                e["unnamed"] = True
         if sc["driver"] not in ("ForceBias", "AdaptiveForceBias") and sc.get("route") != "from_dict" and rnd.random() < 0.3:
             # one calculator object serves both simulations, one after the other (usual for expensive calculators):
             # the second starts with a calculator whose cache describes the end of the first
